@@ -378,6 +378,57 @@ def _name(s):
 # normal form of a term modulo helper extraction and placement of conditionals
 
 
+def guard_truth(g: T, param: str, value) -> Optional[bool]:
+    """Truth value of condition `g` when the parameter `param` has the constant `value`; None if g says nothing about it.
+    Handles ==, !=, in / not in a literal collection, not, and / or -- so every arrangement of an if/elif chain over the values of
+    one parameter can be evaluated branch by branch."""
+    neg = False
+    while g.op == "not" or (g.op == "unary" and g.name == "Not"):
+        neg, g = not neg, g.args[0]
+    v = None
+    if g.op == "bool":
+        vs = [guard_truth(a_, param, value) for a_ in g.args]
+        if g.name == "Or":
+            v = True if any(x is True for x in vs) else (False if all(x is False for x in vs) else None)
+        else:
+            v = False if any(x is False for x in vs) else (True if all(x is True for x in vs) else None)
+    elif g.op == "cmp" and len(g.args) == 2 and any(a_.op == "param" and a_.name == param for a_ in g.args):
+        other = next(a_ for a_ in g.args if not (a_.op == "param" and a_.name == param))
+        if g.name in ("==", "!=") and other.op == "const":
+            v = (other.name == value) == (g.name == "==")
+        elif g.name in ("in", "not in") and other.op in ("list", "tuple", "set") and all(x.op == "const" for x in other.args) and g.args[0].op == "param":
+            v = (value in {x.name for x in other.args}) == (g.name == "in")
+    return None if v is None else (v != neg)
+
+
+def specialise(t: T, param: str, value) -> T:
+    """`t` with every conditional on `param` resolved for param == value"""
+    if t.op == "ifexp":
+        tv = guard_truth(t.args[0], param, value)
+        if tv is True:
+            return specialise(t.args[1], param, value)
+        if tv is False:
+            return specialise(t.args[2], param, value)
+    if not t.args and not t.kw:
+        return t
+    return T(t.op, t.name, [specialise(a_, param, value) for a_ in t.args], {k: specialise(v_, param, value) for k, v_ in t.kw.items()}, t.node)
+
+
+def constants_compared_with(fn_node: ast.AST, param: str):
+    """every constant the parameter is compared with (==, !=, in [...]) anywhere in the function"""
+    out = set()
+    for n in ast.walk(fn_node):
+        if isinstance(n, ast.Compare) and len(n.ops) == 1:
+            sides = [n.left, n.comparators[0]]
+            if any(isinstance(x, ast.Name) and x.id == param for x in sides):
+                for x in sides:
+                    if isinstance(x, ast.Constant):
+                        out.add(x.value)
+                    elif isinstance(x, (ast.List, ast.Tuple, ast.Set)):
+                        out |= {e.value for e in x.elts if isinstance(e, ast.Constant)}
+    return out
+
+
 def dict_entry(k: T, v: T) -> Optional[T]:
     """D if (k, v) are the key and the value of one entry of the dictionary D, however the loop is written:
     `for k, v in D.items()`, `for k in D: ... D[k]`, `for k in D.keys(): ... D[k]`, `for k, _ in D.items(): ... D[k]`."""
@@ -527,9 +578,20 @@ def inline(repo, fi: FuncInfo, t: T, depth: int = 3, keep=(), value_only: bool =
     return inline(repo, callee_ex.fi, subst(ret, m), depth - 1, keep, value_only)
 
 
+def _order_products(t: T) -> T:
+    """`a * b` == `b * a` (numbers, arrays, and `[x] * n` == `n * [x]`): the operands of a product are ordered"""
+    if not t.args and not t.kw:
+        return t
+    args = [_order_products(a) for a in t.args]
+    kw = {k: _order_products(v) for k, v in t.kw.items()}
+    if t.op == "binop" and t.name == "*" and len(args) == 2:
+        args = sorted(args, key=lambda x: x.key())
+    return T(t.op, t.name, args, kw, t.node)
+
+
 def norm(repo, fi: FuncInfo, t: T, keep=()) -> T:
     from sa.terms import canon
-    return canon(inline(repo, fi, t, keep=keep))
+    return _order_products(canon(inline(repo, fi, t, keep=keep)))
 
 
 def same_expr(repo, fi: FuncInfo, stmt: ast.AST, value: ast.AST, expected_src: str, keep=(), locals_from=None) -> bool:
